@@ -13,6 +13,7 @@ import (
 	"sync"
 
 	"github.com/mit-pdos/go-nfsd/fh"
+	"github.com/mit-pdos/go-nfsd/fstxn"
 	"github.com/mit-pdos/go-nfsd/nfs"
 	"github.com/mit-pdos/go-nfsd/nfstypes"
 )
@@ -428,6 +429,7 @@ func cmdCrash(fs *flag.FlagSet, args []string) {
 	mix := fs.String("mix", "meta", "meta | data")
 	maxImages := fs.Int("images", 400, "crash images per workload (evenly spread when the trace offers more)")
 	disksz := fs.Uint64("disk", 20000, "disk size")
+	locks := fs.Bool("locks", false, "print the lock/name event trace of the requests issued on recovered servers (creations that reuse half-freed numbers take the abort-help-retry path of getAlloc)")
 	second := fs.Int("second", 0, "per workload: restart on this many crash images, serve more operations, crash again")
 	imgPath := fs.String("imgout", "", "file the images of the recovered logical disks go to (structure checker)")
 	onlySeed := fs.Uint64("wseed", 0, "replay: run only the workload with this seed")
@@ -444,6 +446,10 @@ func cmdCrash(fs *flag.FlagSet, args []string) {
 		iw := bufio.NewWriterSize(f, 1<<20)
 		defer func() { iw.Flush(); f.Close() }()
 		imgOut = func(l string) { iw.WriteString(l); iw.WriteByte('\n') }
+	}
+	if *locks {
+		fstxn.VerifObserver = seqObserver
+		defer func() { fstxn.VerifObserver = nil }()
 	}
 	root := NewRng(*seed)
 	for w := 0; w < *nwl; w++ {
@@ -522,9 +528,13 @@ func cmdCrash(fs *flag.FlagSet, args []string) {
 				rs.probeBlocks = 640 // enough to pick up whatever an interrupted free of a 770-block file released
 			}
 			trouble := ""
+			rs.locks = *locks
 			rs.sink = func(l string) {
 				if strings.HasPrefix(l, "# PANIC") || strings.HasPrefix(l, "# HANG") {
 					trouble = l
+				}
+				if strings.HasPrefix(l, "# LOCKS ") {
+					emit("%s", l)
 				}
 			}
 			rs.d = NewOverlay(*disksz, img)
@@ -588,7 +598,7 @@ func cmdCrash(fs *flag.FlagSet, args []string) {
 				// C05: a crash in the middle of freeing loses no space: once the number of every
 				// half-freed object has been reused, nothing is half-freed any more
 				for _, hf := range halfFreed(rs.srv.VerifFsState()) {
-					rs.pokeInodeAlloc(hf)
+					rs.pokeInodeAlloc(hf - 1)
 					rs.mk("create", rs.root(), fmt.Sprintf("reuse-%d", hf))
 				}
 				rs.waitIdle()
@@ -648,7 +658,13 @@ func (s *seqRun) postCrashProbe() string {
 		return "the server had already crashed"
 	}
 	last := ""
-	s.sink = func(l string) { last = l }
+	prev := s.sink
+	s.sink = func(l string) {
+		last = l
+		if prev != nil && strings.HasPrefix(l, "# LOCKS ") {
+			prev(l)
+		}
+	}
 	okc := s.hist["create:ok"]
 	f := s.mk("create", s.root(), "postcrash-file")
 	if f == nil || s.hist["create:ok"] != okc+1 {
@@ -696,7 +712,7 @@ func (s *seqRun) postCrashProbe() string {
 	// whatever the crash left half-done is resumed now: the numbers of half-freed objects are
 	// reused, and every file is touched (a size change to its own size finishes a pending shrink)
 	for _, hf := range halfFreed(s.srv.VerifFsState()) {
-		s.pokeInodeAlloc(hf)
+		s.pokeInodeAlloc(hf - 1)
 		s.mk("create", s.root(), fmt.Sprintf("reuse-%d", hf))
 	}
 	for _, fhh := range s.dumpFiles {
